@@ -170,8 +170,11 @@ slot_base::delete_rep_with_check()
   // deletes rep_ to either clear the rep_ pointer or delete this slot_base.
   if (notifier)
   {
-    delete rep_; // Detach the stored functor from the other referred trackables and destroy it.
+    // Clear rep_ before deleting the slot_rep. The functor in the slot_rep
+    // may own this slot_base, which is then deleted together with the functor.
+    auto old_rep_ = rep_;
     rep_ = nullptr;
+    delete old_rep_; // Detach the stored functor from the other referred trackables and destroy it.
   }
 }
 
